@@ -309,7 +309,8 @@ def run(tier):
         plans.append(dict(full, tag="len4small", seed=seed + 1, maxlen=4, orders=[12], rawsets=["skew", "tsel"], tailsets=["upsk"],
                           multisets=["m2", "m3"], rotelems=[2, 5, 7, 10], rcoefs=[100, 70], kinds=["AH", "AE", "PCA", "MAF", "ROT"]))
     else:
-        plans.append(dict(full, tag="len4hermite", seed=seed, maxlen=4, orders=[5, 12, 20, 30, 40], rawsets=["skew", "tsel"], kinds=["AH"]))
+        plans.append(dict(full, tag="len4hermite", seed=seed, maxlen=4, orders=[5, 12, 20, 30, 40], tailsets=[], kinds=["AH"]))
+        plans.append(dict(full, tag="len4tails", seed=seed, maxlen=4, orders=[12, 30], rawsets=["tsel"], rcoefs=[100, 70], kinds=["AH"]))
         plans.append(dict(full, tag="len4others", seed=seed, maxlen=4, kinds=["AE", "PCA", "MAF", "NS", "ROT"]))
         plans.append(dict(full, tag="len5small", seed=seed + 1, maxlen=5, orders=[20], rawsets=["tsel"], multisets=["m2"],
                           rotelems=[2, 5, 7, 10], rcoefs=[100, 50], tailsets=[]))
